@@ -231,7 +231,8 @@ def _parse_raw_data(region_str):
                                      f'shape: "{line}"')
                 # composite metadata applies to all regions within the
                 # composite shape
-                composite_meta = _parse_metadata(line[idx + 2:].strip())
+                composite_meta = _parse_metadata(
+                    original_line[idx + 2:].strip())
                 # remove "composite=1" since we split the composite
                 composite_meta.pop('composite', None)
 
